@@ -18,6 +18,10 @@ import CtyModel.Lemmas.MarksOps
 import CtyModel.Lemmas.MarksPaths
 import CtyModel.Lemmas.MarksPrologue
 import CtyModel.Lemmas.MarksRebuild
+import CtyModel.Lemmas.d04ConvNoInv
+import CtyModel.Lemmas.d04Call
+import CtyModel.Lemmas.d04RefineNN
+import CtyModel.ConvertD08Env
 namespace CtyModel
 namespace C04
 open Value
@@ -105,6 +109,30 @@ theorem composites_are_compositions (a b : Value) :
     Op.ge.run [a, b] = (do let g ← Value.greaterThan a b; let e ← Value.equals a b; Value.or g e) :=
   ⟨rfl, rfl, rfl⟩
 
+/-- **The three composite comparison methods, by name** (audit C04 item 3): `NotEqual`,
+`LessThanOrEqualTo`, `GreaterThanOrEqualTo` are members of `Op`, so non-interference, no
+loss (at EVERY depth of both operands, because `Equals` is part of each) and no invention
+hold of them as of the eighteen methods with a prologue of their own. -/
+theorem composites_unmark_commute (op : Op) (_hop : op ∈ [Op.notEqual, Op.le, Op.ge]) (a b : Value)
+    (ha : a.MarksWF) (hb : b.MarksWF) :
+    (op.run [a, b]).map unmarkDeep = op.run [a.unmarkDeep, b.unmarkDeep] :=
+  op_unmark_commutes op [a, b] (by intro x hx; simp at hx; rcases hx with rfl | rfl <;> assumption)
+
+theorem composites_keep_nested_marks (op : Op) (hop : op ∈ [Op.notEqual, Op.le, Op.ge]) (a b r : Value)
+    (h : op.run [a, b] = .ok r) (m : String) (hm : m ∈ a.marksDeep ∨ m ∈ b.marksDeep) : m ∈ r.marks := by
+  simp only [List.mem_cons, List.not_mem_nil, or_false] at hop
+  rcases hm with hm | hm
+  · exact deep_marks_kept op [a, b] r h 0 a rfl m (by rcases hop with rfl | rfl | rfl <;> exact hm)
+  · exact deep_marks_kept op [a, b] r h 1 b rfl m (by rcases hop with rfl | rfl | rfl <;> exact hm)
+
+theorem composites_invent_nothing (op : Op) (_hop : op ∈ [Op.notEqual, Op.le, Op.ge]) (a b r : Value)
+    (h : op.run [a, b] = .ok r) (m : String) (hm : m ∈ r.marksDeep) : m ∈ a.marksDeep ∨ m ∈ b.marksDeep := by
+  obtain ⟨x, hx, hmx⟩ := no_invention op [a, b] r h m hm
+  simp at hx
+  rcases hx with rfl | rfl
+  · exact .inl hmx
+  · exact .inr hmx
+
 /-! ## Constructors -/
 
 /-- **Marks on members given to a set constructor move to the set**: the set's
@@ -186,6 +214,42 @@ theorem hasSameMarks_iff (a b : Value) (ha : a.v.markerWF = true) (hb : b.v.mark
     (hca : a.v.marksCanon) (hcb : b.v.marksCanon) : a.hasSameMarks b = true ↔ a.marks = b.marks :=
   Value.hasSameMarks_iff ha hb hca hcb
 
+/-! ## Conversion: the REAL model (`Convert.apply` / `Convert.convert`, every closure
+`getConversion` can return — the model `Driver/HConvert.lean` diffs against convert.Convert,
+in this check too: `cv.convert` cases on nested-marked inputs) -/
+
+/-- **No invention, every conversion.** Whatever plan is applied to whatever value, every
+mark at ANY depth of the result is somewhere in the input — no hypothesis on the
+environment, the plan, the value or the fuel (audit C04 item 1: the old statement was
+relative to an arbitrary `inner`, which may invent). -/
+theorem convert_real_no_invention (E : Convert.Env) (fuel : Nat) (v : Value) (want : Ty) (r : Value)
+    (h : Convert.convert E fuel v want = .ok r) (m : String) (hm : m ∈ r.marksDeep) : m ∈ v.marksDeep :=
+  D04C.convert_noinv E fuel v want r h m hm
+
+/-- … the same for a conversion obtained from `GetConversion` / `GetConversionUnsafe` and applied. -/
+theorem conversion_real_no_invention (E : Convert.Env) (fuel : Nat) (p : Convert.Plan) (v r : Value)
+    (h : Convert.apply E fuel p v = .ok r) (m : String) (hm : m ∈ r.marksDeep) : m ∈ v.marksDeep :=
+  D04C.apply_noinv E fuel p v r h m hm
+
+/-- **Every mark on a converted value is on the result**, real model. -/
+theorem convert_real_top_marks_kept (E : Convert.Env) (fuel : Nat) (v : Value) (want : Ty) (r : Value)
+    (h : Convert.convert E fuel v want = .ok r) (m : String) (hm : m ∈ v.marks) : m ∈ r.marks :=
+  D04C.convert_top_kept E fuel v want r h m hm
+
+/-- **The wrapper theorems below are about the real closure.** On a marked value the closure
+`getConversion` returns is `convWrap` around itself (one unit of fuel less): `convert_marks`,
+`convert_unmark_commutes`, `convert_no_invention` hold with `inner := Convert.apply E fuel (.wrap out conv)`. -/
+theorem convert_real_is_wrapper (E : Convert.Env) (fuel : Nat) (out : Ty) (conv : Convert.Plan) (v : Value)
+    (hm : v.isMarked = true) :
+    Convert.apply E (fuel + 1) (.wrap out conv) v = convWrap (Convert.apply E fuel (.wrap out conv)) v :=
+  D04C.apply_wrap_eq_convWrap E fuel out conv v hm
+
+/-- a non-trivial instance in the environment the driver runs: a marked list with a marked
+member and a marked null member, number → string: every mark stays where it was -/
+example : Convert.convert Convert.driverEnv 8
+    ⟨.list .number, .marked ["m1"] (.seq [.marked ["m2"] (.n (Num.ofInt 1 64)), .marked ["m3"] .null])⟩ (.list .string) =
+    .ok ⟨.list .string, .marked ["m1"] (.seq [.marked ["m2"] (.s "1"), .marked ["m3"] .null])⟩ := by rfl
+
 /-! ## Conversion wrapper (for every conversion it wraps) -/
 
 /-- **Every mark on a converted value is on the result.** -/
@@ -239,6 +303,47 @@ theorem call_noninterference_allowMarked (spec : Fn.Spec) (tf : Fn.TypeFn) (impl
     Fn.Out.map unmarkDeep (Fn.call spec tf impl args).1 = (Fn.call spec tf impl (args.map unmarkDeep)).1 := by
   rw [Fn.call_eq, Fn.call_eq]
   exact Fn.callTable_blind spec tf impl args htf himpl hr hw
+
+/-- **The hypothesis `RefineBlind` of the theorem above was not instantiable for the standard
+library** (audit C04 item 1, last bullet / missing theorem (b)): it quantifies over every value,
+including a marker directly inside a marker, on which `Value.Refine()` is not modelled — it is
+FALSE of `refineNonNull`, the `RefineResult` of most stdlib functions. -/
+theorem refineBlind_false_of_refineNonNull :
+    ¬ Fn.RefineBlind { params := [], refine := some Stdlib.refineNN } :=
+  Fn.refineBlind_refineNN_counterexample
+
+/-- **Non-interference of calls, any specification, restated.** `RefineResult` is asked to be
+blind only on the values the protocol hands it (`refineWith` calls it on `val.Unmark()`:
+top-level unmarked, `Fn.RefineBlindWF`; every `RefineBlind` callback is one). -/
+theorem call_noninterference_allowMarked_wf (spec : Fn.Spec) (tf : Fn.TypeFn) (impl : Fn.ImplFn) (args : List Value)
+    (htf : Fn.TypeBlind tf) (himpl : Fn.ImplBlind impl) (hr : Fn.RefineBlindWF spec)
+    (hw : ∀ v ∈ args, v.v.markerWF = true) :
+    Fn.Out.map unmarkDeep (Fn.call spec tf impl args).1 = (Fn.call spec tf impl (args.map unmarkDeep)).1 := by
+  rw [Fn.call_eq, Fn.call_eq]
+  exact Fn.callTable_blindWF spec tf impl args htf himpl hr hw
+
+/-- **`refineNonNull` is blind where the protocol calls it**, so `RefineBlindWF` holds of every
+specification whose `RefineResult` is `refineNonNull` or absent — the hypothesis of
+`call_noninterference_allowMarked_wf` is instantiated for the standard library. -/
+theorem refineNonNull_blind (spec : Fn.Spec) (h : spec.refine = some Stdlib.refineNN ∨ spec.refine = none) :
+    Fn.RefineBlindWF spec := Fn.refineBlindWF_of_refineNN spec h
+
+/-- **`stdlib.LengthFunc` (its parameter is `AllowMarked`) computes the same on marked and on
+deeply unmarked arguments**: `Type`, `Impl` (Stdlib/Collection.lean) and `RefineResult` are
+blind, no hypothesis beyond proper marker layers on the arguments. -/
+theorem call_noninterference_length (args : List Value) (hw : ∀ v ∈ args, v.v.markerWF = true) :
+    Fn.Out.map unmarkDeep (Fn.call Stdlib.lengthSpec Stdlib.lengthType Stdlib.lengthImpl args).1 =
+      (Fn.call Stdlib.lengthSpec Stdlib.lengthType Stdlib.lengthImpl (args.map unmarkDeep)).1 :=
+  call_noninterference_allowMarked_wf _ _ _ args Fn.length_typeBlind Fn.length_implBlind
+    (refineNonNull_blind _ (.inl rfl)) hw
+
+/-- … and with no hypothesis left for the protocol + `Type` + `Impl` part (`RefineResult` switched off). -/
+theorem call_noninterference_length_unrefined (args : List Value) (hw : ∀ v ∈ args, v.v.markerWF = true) :
+    Fn.Out.map unmarkDeep
+        (Fn.call { Stdlib.lengthSpec with refine := none } Stdlib.lengthType Stdlib.lengthImpl args).1 =
+      (Fn.call { Stdlib.lengthSpec with refine := none } Stdlib.lengthType Stdlib.lengthImpl (args.map unmarkDeep)).1 :=
+  call_noninterference_allowMarked_wf _ _ _ args Fn.length_typeBlind Fn.length_implBlind
+    (fun r hr => by cases hr) hw
 
 /-- … whose marks are the result's own plus every mark anywhere in any argument. -/
 theorem call_noninterference_marks (args : List Value) (r : Value) (m : String) :
@@ -296,6 +401,9 @@ example : Fn.ImplBlind (fun as _ => .ok (as.headD Value.dynVal)) := by
   cases as with
   | nil => exact ⟨rfl, fun r h => by cases h; rfl⟩
   | cons a as => exact ⟨rfl, fun r h => by cases h; exact hw a (by simp)⟩
+example : (Fn.call Stdlib.lengthSpec Stdlib.lengthType Stdlib.lengthImpl
+    [⟨.list .bool, .marked ["m1"] (.seq [.marked ["m2"] (.b true)])⟩]).1 =
+    .ok ⟨.number, .marked ["m1"] (.n (Num.ofInt 1 64))⟩ := by rfl
 example : Fn.Unhandled { params := [{ ty := .dyn }] } [⟨.list .bool, .seq [.marked ["m2"] (.b true)]⟩] "m2" :=
   ⟨0, { ty := .dyn }, _, rfl, rfl, rfl, by decide⟩
 
